@@ -156,3 +156,128 @@ class ClassDBRecorder:
             yield
         finally:
             self.enabled = old
+
+
+# ---------------------------------------------------------------------------------------
+# DefaultQueue
+
+_QUEUE_REG: Dict[int, "QueueRecorder"] = {}
+_QUEUE_ORIG: Dict[str, Callable] = {}
+_QUEUE_METHODS = ("add", "set_stop_yielding", "set_verified", "set_not_inferrable", "__next__", "do_level")
+_QUEUE_OPNAME = {"add": "add", "set_stop_yielding": "stop", "set_verified": "verified", "set_not_inferrable": "notinf"}
+
+
+def _install_queue_patches():
+    if _QUEUE_ORIG:
+        return
+    from comb_spec_searcher.class_queue import DefaultQueue
+
+    def mk(name):
+        orig = getattr(DefaultQueue, name)
+        _QUEUE_ORIG[name] = orig
+
+        def wrapper(self, *a, **k):
+            rec = _QUEUE_REG.get(id(self))
+            if rec is None or rec.q is not self:
+                return orig(self, *a, **k)
+            return rec._call(name, a, k)
+
+        wrapper.__name__ = name
+        return wrapper
+
+    for name in _QUEUE_METHODS:
+        setattr(DefaultQueue, name, mk(name))
+
+
+NONE_P = {"l": -1, "k": "none", "s": 0, "i": 0}
+
+
+class QueueRecorder:
+    """Records the public calls on one DefaultQueue as events in the format of Trace_ClassQueue."""
+
+    def __init__(self, q, sink: Optional[List[dict]] = None):
+        _install_queue_patches()
+        self.q = q
+        self.events: List[dict] = [] if sink is None else sink
+        self.depth = 0
+        _QUEUE_REG[id(q)] = self
+
+    def close(self):
+        _QUEUE_REG.pop(id(self.q), None)
+
+    def shape(self):
+        q = self.q
+        return (1 if q.inferral_strategies else 0, len(q.initial_strategies), tuple(len(s) for s in q.expansion_strats))
+
+    def project(self, wp) -> dict:
+        q = self.q
+        if wp.inferral:
+            return {"l": int(wp.label), "k": "inf", "s": 0, "i": 0}
+        if len(wp.strategies) == 1:
+            st = wp.strategies[0]
+            for i, x in enumerate(q.initial_strategies):
+                if x is st:
+                    return {"l": int(wp.label), "k": "init", "s": 0, "i": i + 1}
+            for s, grp in enumerate(q.expansion_strats):
+                for i, x in enumerate(grp):
+                    if x is st:
+                        return {"l": int(wp.label), "k": "exp", "s": s + 1, "i": i + 1}
+        return {"l": int(wp.label), "k": "unknown-strategy", "s": 0, "i": 0}
+
+    def _lv(self):
+        try:
+            return int(self.q.levels_completed)
+        except Exception:
+            return -1
+
+    def _ev(self, op, a, ret):
+        self.events.append({"op": op, "a": int(a), "ret": ret, "lv": self._lv()})
+
+    def _call(self, name, a, k):
+        orig = _QUEUE_ORIG[name]
+        if self.depth > 0:
+            return orig(self.q, *a, **k)
+        if name == "do_level":
+            return self._do_level(orig(self.q, *a, **k))
+        self.depth += 1
+        ret = err = None
+        try:
+            ret = orig(self.q, *a, **k)
+            return ret
+        except BaseException as e:
+            err = e
+            raise
+        finally:
+            self.depth -= 1
+            if name == "__next__":
+                if err is None:
+                    self._ev("next", -1, self.project(ret))
+                elif isinstance(err, StopIteration):
+                    self._ev("next", -1, {"l": -1, "k": "stop", "s": 0, "i": 0})
+                else:
+                    self._ev("next", -1, {"l": -1, "k": exc_name(err), "s": 0, "i": 0})
+            else:
+                label = a[0] if a else k.get("label")
+                r = dict(NONE_P) if err is None else {"l": -1, "k": exc_name(err), "s": 0, "i": 0}
+                self._ev(_QUEUE_OPNAME[name], label, r)
+
+    def _do_level(self, gen):
+        started = False
+        while True:
+            if not started:
+                self._ev("dl_start", -1, dict(NONE_P))
+                started = True
+            self.depth += 1
+            try:
+                wp = next(gen)
+            except StopIteration:
+                self.depth -= 1
+                self._ev("dl_next", -1, {"l": -1, "k": "end", "s": 0, "i": 0})
+                return
+            except BaseException as e:
+                self.depth -= 1
+                self._ev("dl_next", -1, {"l": -1, "k": exc_name(e), "s": 0, "i": 0})
+                raise
+            self.depth -= 1
+            self._ev("dl_next", -1, self.project(wp))
+            yield wp
